@@ -601,7 +601,9 @@ pub fn run_ops(ops: &[Op], opts: &RunOpts, stats: &mut Stats, hook: &mut dyn Ste
                 line.push_str(t);
             }
             if panicked {
-                line.push_str(&format!(" panic:{}", pclass));
+                // (an allocator refusal is an environment event: which allocation site meets it first is not a result)
+                let msg: String = if pclass == "oom" { String::new() } else { prec.as_ref().map(|p| p.msg().chars().take(90).collect()).unwrap_or_default() };
+                line.push_str(&format!(" panic:{}[{}]", pclass, msg));
             }
             if env.skipped {
                 line.push_str(" skipped");
